@@ -98,6 +98,11 @@ def recorded_to_z3(prob, xname='x'):
     for k, c in enumerate(prob.constraints):
         for r, (co, op, rhs) in enumerate(c.rows()):
             lhs = z3.Sum([zl(v) * var(key) for key, v in co.items()]) if co else z3.RealVal(0)
+            if isinstance(rhs, float) and rhs in (float('inf'), float('-inf')):
+                # an infinite right-hand side handed to the solver: no limit on the one side, unsatisfiable on the other
+                g = z3.BoolVal((op == '<=' and rhs > 0) or (op == '>=' and rhs < 0))
+                cons.append((k, r, g))
+                continue
             rt = zl(rhs)
             cons.append((k, r, lhs <= rt if op == '<=' else (lhs >= rt if op == '>=' else lhs == rt)))
     oe = prob.objective.expr
@@ -714,7 +719,11 @@ def stub_replay(kwargs, env, info):
     out['recorded_bools'] = sorted(xvar.boolean_idx); out['flagged'] = sorted(L.bools)
 
     def norm(co, op_, rhs):
-        return (tuple(sorted((int(j), round(float(sym.evalf(zl(v), {})), 9)) for j, v in co.items() if abs(float(sym.evalf(zl(v), {}))) > 0)), op_, round(float(sym.evalf(zl(rhs), {})), 9))
+        if isinstance(rhs, float) and rhs in (float('inf'), float('-inf')):
+            rv = rhs                    # an infinite bound handed to the solver
+        else:
+            rv = round(float(sym.evalf(zl(rhs), {})), 9)
+        return (tuple(sorted((int(j), round(float(sym.evalf(zl(v), {})), 9)) for j, v in co.items() if abs(float(sym.evalf(zl(v), {}))) > 0)), op_, rv)
     recd = set()
     for c in prob.constraints:
         for co, op_, rhs in c.rows():
